@@ -22,10 +22,11 @@ ScnOK(sc) == /\ sc.op \in Ops
                 CASE sc.op \in {"partition", "partition_indexed"} -> \A v \in Vals : p.p[v] \in 0..2
                   [] OTHER -> /\ \A v \in Vals : p.kf[v] \in Keys \cup {RAISE} /\ p.ef[v] \in Vals \cup {RAISE}
                               /\ (~p.em => p.ef = IdTab)
-ASSUME \A n \in 1..Len(Scns) : ScnOK(Scns[n])
+\* (the file is parsed every time Scns is evaluated: bind it once with LET)
+ASSUME LET all == Scns IN \A n \in 1..Len(all) : ScnOK(all[n])
 
-InitFrom == /\ \E n \in 1..Len(Scns) :
-                 /\ op = Scns[n].op /\ par = Norm(Scns[n].op, Scns[n].par) /\ src = Scns[n].src /\ term = Scns[n].term /\ dsp = Scns[n].dsp
+InitFrom == /\ LET all == Scns IN \E n \in 1..Len(all) : LET sc == all[n] IN
+                 /\ op = sc.op /\ par = Norm(sc.op, sc.par) /\ src = sc.src /\ term = sc.term /\ dsp = sc.dsp
             /\ abandon \in (IF HasFault THEN BOOLEAN ELSE {FALSE})
             /\ i = 1 /\ now = 0 /\ step = 0 /\ arr = <<>>
             /\ S = InitS
